@@ -87,6 +87,9 @@ struct FnCfg {
 }
 
 struct R<'a> {
+    /// R13: bind the tail expression of the function body to `__ret` (hook for end-of-body proof)
+    bind_tail: Option<(usize, usize)>,
+    tail_bound: bool,
     src: &'a str,
     cfg: &'a Cfg,
     fc: FnCfg,
@@ -702,6 +705,24 @@ impl<'r, 'a> V<'r, 'a> {
                 });
                 continue;
             }
+            let is_tail = matches!(st, Stmt::Expr(_, None)) && i + 1 == b.stmts.len()
+                && self.r.bind_tail == Some(rng(b.span()));
+            if is_tail {
+                self.r.rule("R13:tail-binding");
+                self.r.tail_bound = true;
+                self.edits.push(Edit {
+                    start: a,
+                    end: a,
+                    text: format!("/*@S:{}@*/ let __ret = ", stext),
+                });
+                self.edits.push(Edit {
+                    start: e,
+                    end: e,
+                    text: "; /*@END@*/ __ret".to_string(),
+                });
+                self.visit_stmt(st);
+                continue;
+            }
             self.edits.push(Edit {
                 start: a,
                 end: a,
@@ -720,7 +741,7 @@ impl<'r, 'a> V<'r, 'a> {
                             let body = self.r.closure_body_expr(&cl);
                             let k = self.r.fresh();
                             let text = format!(
-                                "{{ let __k{k} = {key}; if !{map}.contains_key(&__k{k}) {{ let __v{k} = {body}; {map}.insert(__k{k}, __v{k}); }} }}",
+                                "{{ let __k{k} = {key}; /*@M:r5-key@*/ if !{map}.contains_key(&__k{k}) {{ /*@M:r5-absent@*/ let __v{k} = {body}; /*@M:r5-value@*/ {map}.insert(__k{k}, __v{k}); /*@M:r5-inserted@*/ }} /*@M:r5-done@*/ }}",
                                 k = k, key = key, map = map, body = body
                             );
                             self.replace(mc.span(), text);
@@ -1378,6 +1399,8 @@ fn main() {
             .map(|a| a.iter().map(|v| v.as_str().unwrap().to_string()).collect())
             .unwrap_or_default();
         let mut r = R {
+            bind_tail: None,
+            tail_bound: false,
             src: text,
             cfg: &cfg,
             fc: fc.clone(),
@@ -1491,8 +1514,15 @@ fn main() {
                                 die("eager accessor body is not a recognised pipeline");
                             }
                         } else {
+                            if matches!(&sig.output, ReturnType::Type(..)) && fc.slice_before.is_none() {
+                                r.bind_tail = Some(rng(b.span()));
+                            }
                             let inner = r.render_block_inner(b);
-                            format!("{{{} /*@END@*/ }}", inner)
+                            if r.tail_bound {
+                                format!("{{{} }}", inner)
+                            } else {
+                                format!("{{{} /*@END@*/ }}", inner)
+                            }
                         }
                     }
                 };
